@@ -1,7 +1,7 @@
 """C06 - scoring and least-squares refinement kernels match their mathematical definition.
 
 Bounded exhaustive exploration: 5 UBIs (cubic exact, rotated 0.3 deg, scaled 1.0005; triclinic exact
-and rotated) x 5 tolerances x ALL sub-multisets of size 0..4 (quick) / 0..5 (thorough) of a
+and rotated; 150 A cubic and 95x110x140 A triclinic, rotated) x 5 tolerances x ALL sub-multisets of size 0..4 (quick) / 0..5 (thorough) of a
 24-letter peak alphabet g = UB.(hkl + delta) (coplanar triples, collinear pairs, |h| = 1000, offsets
 0, 0.004, 0.03, 0.2 and exactly 0.5), plus structured lists of 10^5 peaks; for refine_assigned ALL
 assignments of {label, other} to the list.  Kernels: cImageD11.score, score_and_refine,
@@ -38,7 +38,13 @@ def ubis():
     r = O.rotation_from_axis_angle((1, 2, 3), 0.3)
     T = np.linalg.inv(np.dot(O.rotation_from_axis_angle((2, -1, 1), 33.0), O.cell_to_B([4.1, 5.2, 6.3, 80, 95, 105])))
     # (test matrix, matrix the peaks were generated with)
-    return [(A, A), (np.dot(A, r.T), A), (A * 1.0005, A), (T, T), (np.dot(T, r.T), T)]
+    # large (protein-size) cells: det(UB) = 1/volume is 1e-6 .. 1e-7, far from singular in relative terms
+    L = np.eye(3) * 150.0
+    TL = np.linalg.inv(np.dot(O.rotation_from_axis_angle((2, -1, 1), 33.0), O.cell_to_B([95.0, 110.0, 140.0, 80, 95, 105])))
+    return [(A, A), (np.dot(A, r.T), A), (A * 1.0005, A), (T, T), (np.dot(T, r.T), T), (np.dot(L, r.T), L), (np.dot(TL, r.T), TL)]
+
+
+NUBI = 7
 
 
 def peaks_for(gen_ubi):
@@ -49,12 +55,14 @@ def peaks_for(gen_ubi):
 def plan(tier, seed):
     kmax = 4 if tier == "quick" else 5
     shards = []
-    for ui in range(5):
+    for ui in range(NUBI):
         for first in range(len(ALPHA)):
             shards.append(("multi", ui, first, kmax))
-    for ui in range(5):
+    for ui in range(NUBI):
         shards.append(("assigned", ui, 7 if tier == "quick" else 9))
     shards.append(("long",))
+    for ui in range(NUBI):
+        shards.append(("getind", ui, 4 if tier == "quick" else 5))
     k = seed % len(shards)
     return shards[k:] + shards[:k]
 
@@ -268,8 +276,58 @@ def _run_long(desc):
     return sh
 
 
+def _run_getind(desc):
+    """indexer.getind / indexer.score on ONE indexer object, for every sequence (length <= 4, thorough 5) over 4 trial orientations, with
+    and without the caller-supplied scratch arrays scorethem() passes: each answer is the set of peaks within hkl_tol of an integer hkl
+    for THAT orientation, whatever was asked before"""
+    _, ui, depth = desc
+    from ImageD11 import indexing
+    indexing.loglevel = 4
+    sh = Shard()
+    ubi, gen = ubis()[ui]
+    P = peaks_for(gen)
+    gv = np.ascontiguousarray(np.concatenate([P, -P[:12]]))
+    twin = np.dot(ubi, O.rotation_from_axis_angle((1, 1, 1), 60.0).T)
+    trials = [np.ascontiguousarray(ubi), np.ascontiguousarray(gen), np.ascontiguousarray(twin), np.ascontiguousarray(np.dot(ubi, O.rotation_from_axis_angle((1, 0, 0), 0.1).T))]
+    tol = 0.05
+    want = []
+    for t in trials:
+        o = oracle(t, gv, tol)
+        if "sel" not in o:
+            sh.borderline += 1
+            return sh
+        want.append(o["sel"])
+    ind = indexing.indexer(unitcell=None, gv=gv.copy())
+    ind.hkl_tol = tol
+    ind.gv = gv
+    ind.gvflat = gv
+    for scratch in (False, True):
+        d = np.empty(len(gv), float); l = np.empty(len(gv), np.int32)
+        for L in range(1, depth + 1):
+            for seq in itertools.product(range(4), repeat=L):
+                # one object, one pair of scratch arrays, the whole sequence; only the last answer is new information
+                for k in seq[:-1]:
+                    ind.getind(trials[k], drlv2tmp=d, labelstmp=l) if scratch else ind.getind(trials[k])
+                k = seq[-1]
+                got = ind.getind(trials[k], drlv2tmp=d, labelstmp=l) if scratch else ind.getind(trials[k])
+                case = {"kind": "getind", "ubi": ui, "sequence": list(seq), "scratch_arrays_passed": scratch}
+                if not np.array_equal(got, want[k]):
+                    sh.violation("indexer.getind:answer-depends-on-earlier-calls" if L > 1 else "indexer.getind:not-the-peaks-within-tolerance", case,
+                                 {"n_marked": int(got.sum()), "n_within_tolerance": int(want[k].sum())})
+                    return sh
+                if ind.score(trials[k]) != int(want[k].sum()):
+                    sh.violation("indexer.score:count", case, {"got": int(ind.score(trials[k])), "expected": int(want[k].sum())})
+                    return sh
+                sh.evaluations += 1
+                if L > 1 and len(set(seq)) > 1:
+                    sh.nontrivial += 1
+    sh.outcomes.add(("getind", tuple(int(w.sum()) for w in want)))
+    sh.sample(case, limit=1)
+    return sh
+
+
 def run_shard(desc):
-    return {"multi": _run_multi, "assigned": _run_assigned, "long": _run_long}[desc[0]](desc)
+    return {"multi": _run_multi, "assigned": _run_assigned, "long": _run_long, "getind": _run_getind}[desc[0]](desc)
 
 
 def replay(case):
@@ -283,6 +341,8 @@ def replay(case):
     elif case["kind"] == "assigned":
         r = _run_assigned(("assigned", case["ubi"], len(case["peaks"])))
         sh.violations = [v for v in r.violations if v["case"]["labels"] == case["labels"]]
+    elif case["kind"] == "getind":
+        sh.violations = _run_getind(("getind", case["ubi"], len(case["sequence"]))).violations
     else:
         sh.violations = _run_long(("long",)).violations
     return (not sh.violations), {"violations": sh.violations[:3]}
